@@ -245,8 +245,13 @@ def member : Handler := fun req => do
   let inp ← field req "in"
   let m ← memberOf inp
   let impl ← field req "impl"
-  let f := convert m
-  let model := factsJson (natural m) f
+  -- a member written as a bare `$ref` with SIBLING keywords (`{"$ref": …, "default": …}`, legal in 3.1): the oas3 reader
+  -- keeps `$ref`, `summary` and `description` only, so the generator never sees the default (finding F17-7). `mSeen` is what
+  -- the generator works from (model F); the JUDGE keeps the declared member `m`.
+  let bare := fieldD inp "ref" Json.null == Json.str "bare"
+  let mSeen : Member := if bare then { m with dflt := none, const := none, enumOne := none } else m
+  let f := convert mSeen
+  let model := factsJson (natural mSeen) f
   match impl.getObjVal? "ty" with
   | .error _ =>
     -- generation failed / struct missing: the property cannot hold for a well-formed member
@@ -258,8 +263,11 @@ def member : Handler := fun req => do
       -- an attribute of a shape the semantics does not know cannot be judged here: it is reported as a
       -- broken correspondence (model never predicts it), not as a property violation; tie A judges it by running it
       if !okAttrs then verdict true []
+      else if bare && WF m && !(J m (observeN nat m.builders fi)) then
+        verdict false (if model == proj && (m.dflt.isSome || m.const.isSome) then ["KnownRefSiblingDropped"] else [])
+          "the member is a `$ref` with a sibling `default` / `const`: the emitted member carries no default at all"
       else judgeObs m (observeN nat m.builders fi) "per the emitted attributes, decode-omitted / Default / builder-unset / encode do not all give the declared default"
-    pure (answer model proj judge (memberBranch m))
+    pure (answer model proj judge (memberBranch m ++ (if bare then "+bare-ref" else "")))
 
 def obsValJson : Option JVal → Json
   | some v => jvalJson v
